@@ -152,7 +152,9 @@ fn decode(tapes: &Tapes) -> Scenario {
     dom.max_docs = 1;
     dom.max_nodes = 20;
     let case = decode_case(&mut t, &dom);
-    let (bytes, _, _) = serialize_docs(&case.docs, &tapes.b, &SurfaceCfg::full());
+    let mut surf = SurfaceCfg::full();
+    surf.legacy_decl_any = true;
+    let (bytes, _, _) = serialize_docs(&case.docs, &tapes.b, &surf);
     let mut input = bytes.into_iter().next().unwrap_or_default();
     match input_kind {
         InputKind::Damaged => {
